@@ -246,7 +246,7 @@ func buildCommand(e *Env, c Cmd, now int64, tag string) (cmd.Command, string, er
 	switch c.Kind {
 	case "copy":
 		command = &cmd.CopyCommand{SrcBase: srcBase, SrcRelPath: c.Src, DestBase: dstBase, DestRelPath: c.Dest,
-			AggregationMethod: wt.AggregationMethod(c.Create.Method), XFilesFactor: float32(c.Create.Xff), ArchiveInfoList: c.Create.wtListFilled(),
+			AggregationMethod: wtMethod(c.Create.Method), XFilesFactor: float32(c.Create.Xff), ArchiveInfoList: c.Create.wtListFilled(),
 			From: fromTS, Until: untilTS, ArchiveID: c.Archive, TextOut: tout, CopyNaN: c.CopyNaN}
 		add("src-base", srcBase)
 		add("src", c.Src)
@@ -284,7 +284,7 @@ func buildCommand(e *Env, c Cmd, now int64, tag string) (cmd.Command, string, er
 		add("header", strconv.FormatBool(!c.NoHeader))
 	case "sum-copy":
 		command = &cmd.SumCopyCommand{SrcBase: srcBase, DestBase: dstBase, ItemPattern: c.Item, SrcPattern: c.Src, DestRelPath: c.Dest,
-			AggregationMethod: wt.AggregationMethod(c.Create.Method), XFilesFactor: float32(c.Create.Xff), ArchiveInfoList: c.Create.wtListFilled(),
+			AggregationMethod: wtMethod(c.Create.Method), XFilesFactor: float32(c.Create.Xff), ArchiveInfoList: c.Create.wtListFilled(),
 			From: fromTS, Until: untilTS, ArchiveID: c.Archive, TextOut: tout}
 		add("src-base", srcBase)
 		add("dest-base", dstBase)
@@ -301,7 +301,7 @@ func buildCommand(e *Env, c Cmd, now int64, tag string) (cmd.Command, string, er
 		add("src", c.Src)
 		add("dest", c.Dest)
 	case "generate":
-		command = &cmd.GenerateCommand{Dest: filepath.Join(dstBase, c.Dest), Perm: 0o644, AggregationMethod: wt.AggregationMethod(c.Create.Method),
+		command = &cmd.GenerateCommand{Dest: filepath.Join(dstBase, c.Dest), Perm: 0o644, AggregationMethod: wtMethod(c.Create.Method),
 			XFilesFactor: float32(c.Create.Xff), ArchiveInfoList: c.Create.wtListFilled(), RandMax: c.RandMax, Fill: c.Fill, TextOut: tout}
 		add("dest", filepath.Join(dstBase, c.Dest))
 		layoutArgs()
